@@ -95,14 +95,15 @@ Shape(p, j) == <<2 + p, 5 + j>>            \* (rows, columns)
 Val(p, j) == 10 * p + j                    \* constant pixel value
 Crpix(p, j) == <<50 * p + 10 * j, 7 + j>>  \* different (file, HDU) never overlap on the common tangent plane
 Crval(k) == <<10 * KeyNo(k), 10 * KeyNo(k) - 5>>
+Cdelt == <<-1, 1>>                         \* in 1/1000 degree: an ordinary bottom-up FITS image (positive parity)
 Content(p, j, h) ==
     [kind |-> h.kind, shape |-> IF IsImage(h) THEN Shape(p, j) ELSE <<>>, val |-> Val(p, j),
-     wcs |-> {[key |-> k, crval |-> Crval(k), crpix |-> Crpix(p, j)] : k \in h.keys}]
+     wcs |-> {[key |-> k, crval |-> Crval(k), crpix |-> Crpix(p, j), cdelt |-> Cdelt] : k \in h.keys}]
 \* what the harness has to write: physical file p as a list of HDU contents
 FileTable == [p \in DOMAIN FileSeq |-> [jj \in DOMAIN FileSeq[p] |-> Content(p, jj - 1, FileSeq[p][jj])]]
 \* what must be observed for an item that stands for (list position, physical file p, HDU j, key k)
 Observed(o) == [path |-> o.path, file |-> o.file, hdu |-> o.hdu, key |-> o.key, shape |-> Shape(o.file, o.hdu),
-                val |-> Val(o.file, o.hdu), crval |-> Crval(o.key), crpix |-> Crpix(o.file, o.hdu)]
+                val |-> Val(o.file, o.hdu), crval |-> Crval(o.key), crpix |-> Crpix(o.file, o.hdu), cdelt |-> Cdelt]
 
 \* ------------------------------------------------------------------ the space of cases
 Files(l) == [i \in DOMAIN l |-> FileSeq[l[i]]]
